@@ -559,7 +559,7 @@ pub fn run(rep: &Report) -> i32 {
                 }
             }
         }
-        if i % 5003 == 11 {
+        if i % 5003 == 11 || rep.no_sample_yet() {
             rep.sample(5, || json!({"family": family, "program": text, "shadow_events": el.shadow_events, "scope_exits": el.scope_exits}));
         }
     });
